@@ -176,6 +176,16 @@ class RemoteSeqUnit(Unit):
             c = self.mk(rng, n_retries=n, script=script, initial=rng.choice([None, None, "old"]), deia=rng.random() < 0.3,
                         validate=rng.random() < 0.85, unpack=rng.random() < 0.2)
             cases.append(c)
+        # the retry count as a NumPy integer (an element of a uint8 / int64 configuration array): more failures than retries are
+        # propagated after exactly n_retries + 1 attempts, whatever integer type counts them
+        for ty in ("uint8", "uint16", "int64", "uint64"):
+            for n in (0, 1, 2):
+                c = self.mk(rng, n_retries=n, script=["urlerror"] * (n + 1) + ["good"], initial=None)
+                c["n_retries_type"] = ty
+                cases.append(c)
+                c = self.mk(rng, n_retries=n, script=["timeout"] * n + ["good"], initial=None)
+                c["n_retries_type"] = ty
+                cases.append(c)
         # the remote file and the cache entry carry the SAME name ("traffic.csv" downloaded, "traffic.csv" cached; with a ./ prefix): the
         # two live in different directories and have nothing to do with each other
         for script in (["good"], ["urlerror", "good"], ["gzgood"]):
@@ -220,7 +230,8 @@ class RemoteSeqUnit(Unit):
                     warnings.simplefilter("ignore")
                     r = h.B.load_csv_dataset_from_remote(h.remote(c["digest_of"], c.get("remote_filename", "remote.csv")), "ds", "fam", data_home=h.root, download_if_missing=c["dim"],
                                                          download_even_if_available=c["deia"], validate_checksum=c["validate"],
-                                                         n_retries=c["n_retries"], delay=0.0, gzip=c["gzip"], unpack_dataset_columns=c["unpack"])
+                                                         n_retries=(getattr(np, c["n_retries_type"])(c["n_retries"]) if c.get("n_retries_type") else c["n_retries"]),
+                                                         delay=0.0, gzip=c["gzip"], unpack_dataset_columns=c["unpack"])
                 o = {"result": result_id(r), "tuple": isinstance(r, tuple)}
             except Exception as e:
                 o = {"exc": exn_name(e), "exc_msg": "%s: %s" % (type(e).__name__, str(e)[:100])}
